@@ -35,7 +35,61 @@ func (w *World) heapSym(st *State, name string) string {
 	if !ok {
 		panic("heap without sort: " + name)
 	}
-	return w.declConstRaw(name+"@0", srt)
+	first := !w.constSet[name+"@0"]
+	sym := w.declConstRaw(name+"@0", srt)
+	if first {
+		w.entryClosure(name, sym)
+	}
+	return sym
+}
+
+// entryClosure states that the entry heap is closed: every reference stored
+// in it was allocated before the function started (<= alloc@0).
+func (w *World) entryClosure(name, sym string) {
+	vs := w.heapValSort[name]
+	if vs == nil {
+		return
+	}
+	a0 := q("alloc@0")
+	bound := func(t string, s *Sort) []string {
+		var out []string
+		var rec func(t string, s *Sort, depth int)
+		rec = func(t string, s *Sort, depth int) {
+			switch s.Kind {
+			case KRef, KMap, KChan:
+				out = append(out, fmt.Sprintf("(<= %s %s)", t, a0))
+			case KSlice:
+				out = append(out, fmt.Sprintf("(<= (s-arr %s) %s)", t, a0))
+			case KStruct:
+				if depth < 2 {
+					for _, fi := range w.fieldsOf(s) {
+						rec(fmt.Sprintf("(%s %s)", q(fi.Acc), t), fi.Sort, depth+1)
+					}
+				}
+			}
+		}
+		rec(t, s, 0)
+		return out
+	}
+	save := w.curBlock
+	w.curBlock = -1
+	defer func() { w.curBlock = save }()
+	switch {
+	case strings.HasPrefix(name, "E_"):
+		t := fmt.Sprintf("(select (select %s r!c) j!c)", sym)
+		if bs := bound(t, vs); len(bs) > 0 {
+			w.addFact(fmt.Sprintf("(forall ((r!c Int) (j!c %s)) (! (and %s) :pattern (%s)))", w.idxSortName(), strings.Join(bs, " "), t))
+		}
+	case strings.HasPrefix(name, "H_"), strings.HasPrefix(name, "C_"):
+		t := fmt.Sprintf("(select %s r!c)", sym)
+		if bs := bound(t, vs); len(bs) > 0 {
+			w.addFact(fmt.Sprintf("(forall ((r!c Int)) (! (and %s) :pattern (%s)))", strings.Join(bs, " "), t))
+		}
+	case strings.HasPrefix(name, "G_"):
+		if bs := bound(sym, vs); len(bs) > 0 {
+			w.addFact("(and " + strings.Join(bs, " ") + ")")
+		}
+	}
 }
 
 type evalCtx struct {
@@ -873,6 +927,18 @@ func (c *evalCtx) call(x *ECall) Term {
 			c.fail("unknown type %q", s.V)
 		}
 		return Term{fmt.Sprintf("(= (i-dyn %s) %d)", a.S, w.typeID(gt)), sortBool}
+	case "heapof":
+		// heapof(pkg.T.f): the current field heap as an SMT array (for opaque spec predicates)
+		fe, ok := x.Args[0].(*EField)
+		if !ok {
+			c.fail("heapof(pkg.Type.field)")
+		}
+		ft := &funcTrans{w: w}
+		h, ok := ft.typeLevelField(c, fe)
+		if !ok {
+			c.fail("heapof: not a struct field: %s", fe.String())
+		}
+		return Term{w.heapSym(c.st, h), &Sort{Name: w.heapSorts[h], Kind: KOther}}
 	case "asptr":
 		// asptr(e, "*T"): the pointer stored in interface value e (meaningful when istype(e, "*T"))
 		a := c.eval(x.Args[0])
@@ -915,6 +981,18 @@ func (c *evalCtx) call(x *ECall) Term {
 			}
 			return w.convert(a, to)
 		}
+	}
+	if d, ok := globalDefs[x.Fn]; ok {
+		if len(d.Params) != len(x.Args) {
+			c.fail("%s expects %d arguments", x.Fn, len(d.Params))
+		}
+		scope := map[string]Term{}
+		for i, a := range x.Args {
+			scope[d.Params[i]] = c.eval(a)
+		}
+		n := *c
+		n.bound = append(append([]map[string]Term{}, c.bound...), scope)
+		return n.eval(d.Body)
 	}
 	f, ok := w.P.Spec.Fns[x.Fn]
 	if !ok {
